@@ -269,6 +269,7 @@ func checkUnprojected(c unprojCase) ev.Outcome {
 		o.Counts["subdivided_but_error_below_half_tol"] = 1
 	}
 	o.NonTrivial = len(chain) >= 3 && math.Max(worst, worstBack) > 0.5*c.Tol
-	o.Ratios = map[string]float64{"planar_to_chain_err/tol": worst / c.Tol, "chain_to_planar_err/tol": worstBack / c.Tol}
+	// reported net of the 1e-14 round-off allowance, so that a ratio > 1 is a breach at any tolerance
+	o.Ratios = map[string]float64{"planar_to_chain_err/tol": math.Max(0, worst-absSlack) / c.Tol, "chain_to_planar_err/tol": math.Max(0, worstBack-absSlack) / c.Tol}
 	return o
 }
